@@ -54,3 +54,48 @@ Section Routing.
       else match first_match l (p ++ [slash]) with Some _ => RedirectSlash | None => NotFound end
     end.
 End Routing.
+
+(* pkg/upstream/rewrite.go (with the fix: commits): rewritePath / splitPathAndQuery.  The regular-expression
+   substitution and url.ParseQuery+Values.Encode on the rewrite target's query are library oracles. *)
+Section Rewrite.
+  Variable reencode : str -> option str.
+
+  Definition question : N := 63%N.
+  Definition ampersand : N := 38%N.
+
+  (* strings.SplitN(l, "?", 2) *)
+  Fixpoint cut_question (l : str) : option (str * str) :=
+    match l with
+    | [] => None
+    | c :: l' =>
+      if (c =? question)%N then Some ([], l')
+      else match cut_question l' with
+           | Some (a, b) => Some (c :: a, b)
+           | None => None
+           end
+    end.
+
+  (* the path and raw query forwarded upstream, None = refused with the error page *)
+  Definition split_path_and_query (orig_query new_uri : str) : option (str * str) :=
+    match cut_question new_uri with
+    | None => Some (new_uri, orig_query)
+    | Some (p, aq) =>
+      match reencode aq with
+      | None => None
+      | Some rq =>
+        match orig_query, rq with
+        | [], _ => Some (p, rq)
+        | _, [] => Some (p, orig_query)
+        | _, _ => Some (p, orig_query ++ ampersand :: rq)
+        end
+      end
+    end.
+
+  (* the query a matched upstream receives: verbatim without a rewrite rule; through splitPathAndQuery
+     with one (new_uri = the regular-expression substitution on the decoded path) *)
+  Definition forwarded_query (rewritten : option str) (orig_query : str) : option str :=
+    match rewritten with
+    | None => Some orig_query
+    | Some nu => match split_path_and_query orig_query nu with Some (_, q) => Some q | None => None end
+    end.
+End Rewrite.
